@@ -540,6 +540,11 @@ func (e *engine) runScenario(sc Scenario) (res result) {
 			res.Problems = []string{fmt.Sprintf("created %d file(s) in an empty target although the run fails (stage %s)", len(ref.Files), f.Stage)}
 			return
 		}
+		if f.MustFail {
+			res.Class = "untouched"
+			res.Problems = []string{fmt.Sprintf("accepted-input-the-statement-names-a-failure (stage %s: the generator exits 0 and writes %d file(s))", f.Stage, len(ref.Files))}
+			return
+		}
 		// the tree under test accepts this input: judge it as a proceeding generation
 	}
 	faulty := sc.Fault != "" && sc.Fault != "trace-only"
